@@ -2,10 +2,25 @@
 
 package azblobproxy
 
-import "github.com/buchgr/bazel-remote/v2/cache"
+import (
+	"github.com/Azure/azure-sdk-for-go/sdk/storage/azblob/container"
+	"github.com/buchgr/bazel-remote/v2/cache"
+)
 
 // VerifObjectKey exposes the object name the backend built by New uses for an
 // entry (the Azure endpoint cannot be redirected to a local recorder).
 func VerifObjectKey(p cache.Proxy, hash string, kind cache.EntryKind) string {
 	return p.(*azBlobCache).objectKey(hash, kind)
+}
+
+// VerifRedirect points the backend built by New at another endpoint (a local
+// recorder), so that the names it reads and writes can be observed.
+func VerifRedirect(p cache.Proxy, endpoint string) error {
+	c := p.(*azBlobCache)
+	cc, err := container.NewClientWithNoCredential(endpoint+"/"+c.container, nil)
+	if err != nil {
+		return err
+	}
+	c.containerClient = cc
+	return nil
 }
